@@ -1,6 +1,6 @@
 /-
 C14 — Text operations count characters; % formatting follows the directives.
-Property theorems only; helper lemmas live in ZnVerif/Proofs (Template, Directive, Format, TextUtf8, TextOps).
+Property theorems only; helper lemmas live in ZnVerif/Proofs (Template, Directive, Format, TextUtf8, TextOps, TextHistory).
 
 Texts are sequences of code points; where the Go code (or the library routine it calls) works on bytes the
 model does too, on `encode t`, the UTF-8 bytes of the character sequence `t` (`ValidText t`: all scalar values).
@@ -9,6 +9,7 @@ and every display function (these are runtime; the correspondence run compares t
 -/
 import ZnVerif.Proofs.Format
 import ZnVerif.Proofs.TextOps
+import ZnVerif.Proofs.TextHistory
 
 namespace ZnVerif.Properties.C14
 open ZnVerif ZnVerif.Generated
@@ -280,5 +281,87 @@ open ZnVerif.Model.TextOps in
 example : split (encode [0x61, 0xFF0C, 0x62, 0xFF0C]) (encode [0xFF0C]) = [encode [0x61], encode [0x62], []] ∧
     split (encode [0x4F60, 0x1F600]) [] = [encode [0x4F60], encode [0x1F600]] ∧
     split [] [] = [] := by decide
+
+/-! ## One text value over a history
+
+`Model.TextOps.runHistory` / `Spec.TextOps.runHistory`: the steps 长度, 字符组, 取样 i j, the text itself and
+转换数值 applied one after the other to the SAME value.  转换数值 (`strExecAtoi`) stores a rewritten text back into
+its receiver, so later steps see other bytes than earlier ones; the theorems say that they still see a text, and
+the same one the character-level spec has at that moment. -/
+
+open ZnVerif.Model.TextOps in
+/-- `atoiRewrite_encode`: what 转换数值 leaves in its receiver.  The byte-level `strings.Replace(…, 1)` of `*^` and then
+of `*10^` by `e`, on the bytes of a text, gives the bytes of the text in which the first `*^`, then the first `*10^`,
+is replaced by `e` as characters: no occurrence is found inside a multi-byte character, none is missed -/
+theorem atoiRewrite_encode (t : List Nat) (hv : ValidText t) :
+    atoiRewrite (encode t) = encode (Spec.TextOps.numberRewrite t) :=
+  Proofs.TextHistory.atoiRewrite_encode t hv
+
+open ZnVerif.Model.TextOps in
+/-- `history_refines_spec`: for every text and every history, what the model shows on the bytes `encode t` is, step
+by step, the encoding (`encodeObs`) of what the spec shows on the characters `t` — 长度: the same number; 字符组: the
+characters one by one, each encoded; 取样: the same outcome (result / start-index exception / end-index exception,
+never a panic) with the encoded result; the text: the encoding of the spec's current text — and the value the
+history leaves is the encoding of the (valid) text the spec leaves -/
+theorem history_refines_spec (t : List Nat) (hv : ValidText t) (h : List Step) :
+    runHistory h (encode t) = (Spec.TextOps.runHistory h t).map Proofs.TextHistory.encodeObs ∧
+    stateAfter h (encode t) = encode (Spec.TextOps.stateAfter h t) ∧
+    ValidText (Spec.TextOps.stateAfter h t) :=
+  ⟨Proofs.TextHistory.runHistory_encode h t hv, Proofs.TextHistory.stateAfter_encode h t hv,
+    Proofs.TextHistory.validText_stateAfter h t hv⟩
+
+open ZnVerif.Model.TextOps in
+/-- `history_self_consistent`: at every moment of every history of a text value — `s` are its bytes then — 长度 is the
+number of entries of 字符组, the entries of 字符组 joined are the text, and 取样 i j is the spec slice of 字符组 (the
+entries at positions i..j, joined; same exceptions; never part of a character): no step can make the observables
+disagree with each other -/
+theorem history_self_consistent (t : List Nat) (hv : ValidText t) (h : List Step) :
+    let s := stateAfter h (encode t)
+    length s = (chars s).length ∧ (chars s).flatten = s ∧
+    ∀ i j : Int, slice s i j =
+      match Spec.TextOps.slice (chars s) i j with
+      | .ok pieces => .ok pieces.flatten
+      | .error e => .error (Proofs.TextOps.liftErr e) := by
+  obtain ⟨_, hs, hv'⟩ := history_refines_spec t hv h
+  dsimp only
+  rw [hs]
+  refine ⟨(length_eq_chars_length _ hv').1, ?_, fun i j => length_chars_slice_consistent _ hv' i j⟩
+  rw [Proofs.TextUtf8.chars_encode _ hv']
+  rfl
+
+open ZnVerif.Model.TextOps in
+/-- the same in terms of observations only: asking 长度, 字符组 and 取样 i j after any history shows a number `n`, an
+array `cs` and an outcome `r` with `n` the number of entries of `cs` and `r` the spec slice of `cs` -/
+theorem history_observations_consistent (t : List Nat) (hv : ValidText t) (h : List Step) (i j : Int) :
+    ∃ n cs r, runHistory (h ++ [.len, .chars, .slice i j]) (encode t) =
+        runHistory h (encode t) ++ [.len n, .chars cs, .slice r] ∧
+      n = cs.length ∧
+      r = match Spec.TextOps.slice cs i j with
+          | .ok pieces => .ok pieces.flatten
+          | .error e => .error (Proofs.TextOps.liftErr e) := by
+  obtain ⟨h1, _, h3⟩ := history_self_consistent t hv h
+  exact ⟨_, _, _, Proofs.TextHistory.runHistory_append h _ _, h1, h3 i j⟩
+
+/-! ### non-vacuity: `1*10^3多` (7 characters, 9 bytes) becomes `1e3多` (4 characters) under 转换数值 -/
+
+-- the text is valid
+example : ValidText [0x31, 0x2A, 0x31, 0x30, 0x5E, 0x33, 0x591A] := by
+  intro c hc; simp at hc; rcases hc with rfl | rfl | rfl | rfl | rfl | rfl | rfl <;> decide
+
+open ZnVerif.Model.TextOps in
+-- model, on bytes: 7; (rewrites); 4; the four characters (多 = E5 A4 9A); characters 1..2 = `1e`
+example : runHistory [.len, .toNumber, .len, .chars, .slice 1 2] (encode [0x31, 0x2A, 0x31, 0x30, 0x5E, 0x33, 0x591A]) =
+    [.len 7, .converted, .len 4, .chars [[0x31], [0x65], [0x33], [0xE5, 0xA4, 0x9A]], .slice (.ok [0x31, 0x65])] := by rfl
+
+open ZnVerif.Spec.TextOps ZnVerif.Model.TextOps.Step in
+-- spec, on characters
+example : runHistory [len, toNumber, len, chars, slice 1 2] [0x31, 0x2A, 0x31, 0x30, 0x5E, 0x33, 0x591A] =
+    [.len 7, .converted, .len 4, .chars [[0x31], [0x65], [0x33], [0x591A]], .slice (.ok [0x31, 0x65])] := by rfl
+
+open ZnVerif.Model.TextOps in
+-- the value left behind is `1e3多`; and nothing is rewritten in `*多^⩞`: `*` and `^` stand apart, and the bytes of
+-- 多 (E5 A4 9A) and ⩞ (U+2A5E = E2 A9 9E) contain neither 2A nor 5E
+example : stateAfter [.toNumber] (encode [0x31, 0x2A, 0x31, 0x30, 0x5E, 0x33, 0x591A]) = encode [0x31, 0x65, 0x33, 0x591A] ∧
+    atoiRewrite (encode [0x2A, 0x591A, 0x5E, 0x2A5E]) = encode [0x2A, 0x591A, 0x5E, 0x2A5E] := ⟨by rfl, by rfl⟩
 
 end ZnVerif.Properties.C14
